@@ -1413,6 +1413,134 @@ def fixed_programs(ctx, cfgs):
 
 
 # ---------------------------------------------------------------------------
+# the converse clause: every dump Delta itself produces for supported value types loads
+# ---------------------------------------------------------------------------
+
+def own_dump_values():
+    """one value of every type on the built-in allow-list that can occur in a delta (instances), and the
+    allow-listed class / function objects themselves as values"""
+    import collections
+    import datetime
+    import decimal
+    import re
+    import uuid
+    import orderly_set
+    from deepdiff.helper import Opcode, SetOrdered
+    return [
+        ("uuid.UUID", uuid.UUID("12345678123456781234567812345678"), True),
+        ("decimal.Decimal", decimal.Decimal("1.5"), True),
+        ("datetime.datetime", datetime.datetime(2020, 1, 2, 3, 4, 5), True),
+        ("datetime.time", datetime.time(1, 2, 3), True),
+        ("datetime.timedelta", datetime.timedelta(days=1, seconds=5), True),
+        ("collections.OrderedDict", collections.OrderedDict([("a", 1), ("b", 2)]), False),
+        ("builtins.frozenset", frozenset({1, "a"}), True),
+        ("builtins.set", {1, 2}, False),
+        ("builtins.range", range(1, 5), True),
+        ("builtins.complex", complex(1, 2), True),
+        ("builtins.slice", slice(1, 2), False),
+        ("builtins.bytes", b"ab", True),
+        ("builtins.tuple", (1, "x"), True),
+        ("builtins.str/int/float/bool/list/dict", {"s": "x", "i": 1, "f": 1.5, "b": True, "l": [1], "d": {"k": None}}, False),
+        ("deepdiff.helper.Opcode", Opcode("insert", 0, 0, 0, 1, None, [1]), False),
+        ("deepdiff.helper.SetOrdered", SetOrdered([1, 2]), False),
+        ("orderly_set.sets.OrderedSet", orderly_set.OrderedSet([1, 2]), False),
+        ("orderly_set.sets.StableSetEq", orderly_set.StableSetEq([1, 2]), False),
+        ("orderly_set.sets.OrderlySet", orderly_set.OrderlySet([1, 2]), False),
+        ("class re.Pattern", re.Pattern, True), ("class uuid.UUID", uuid.UUID, True), ("class decimal.Decimal", decimal.Decimal, True),
+        ("class datetime.datetime", datetime.datetime, True), ("class datetime.time", datetime.time, True),
+        ("class datetime.timedelta", datetime.timedelta, True), ("class collections.OrderedDict", collections.OrderedDict, True),
+        ("class builtins.range", range, True), ("class builtins.complex", complex, True), ("class builtins.slice", slice, True),
+        ("class deepdiff.helper.Opcode", Opcode, True), ("class deepdiff.helper.SetOrdered", SetOrdered, True),
+        ("class orderly_set.sets.OrderedSet", orderly_set.OrderedSet, True),
+        ("function builtins.bin", bin, True), ("function collections.namedtuple", collections.namedtuple, True),
+    ]
+
+
+OWN_POSITIONS = ["dict-added", "list-added", "dict-removed", "type-change-to", "type-change-from", "set-member-added", "set-member-removed",
+                 "value-in-changed-container"]
+
+
+def own_dump_pair(v, hashable, pos):
+    import copy
+    c = copy.deepcopy
+    if pos == "dict-added":
+        return {"a": 1}, {"a": 1, "n": c(v)}
+    if pos == "list-added":
+        return [1], [1, c(v)]
+    if pos == "dict-removed":
+        return {"a": 1, "n": c(v)}, {"a": 1}
+    if pos == "type-change-to":
+        return {"k": 1}, {"k": c(v)}
+    if pos == "type-change-from":
+        return {"k": c(v)}, {"k": "s"}
+    if pos == "set-member-added" and hashable:
+        return {"s": {1}}, {"s": {1, v}}
+    if pos == "set-member-removed" and hashable:
+        return {"s": {1, v}}, {"s": {1}}
+    if pos == "value-in-changed-container":
+        return {"q": [c(v), 1]}, {"q": [c(v), 2, 3]}
+    return None
+
+
+def own_dump_one(ctx, vi, pos, bid):
+    import logging
+    logging.disable(logging.CRITICAL)
+    from deepdiff import DeepDiff, Delta
+    name, v, hashable = own_dump_values()[vi]
+    if name.startswith(("class ", "function ")) and pos.startswith("type-change"):
+        return      # the "type" of such a value is a metaclass / function type: not a supported value type
+    pair = own_dump_pair(v, hashable, pos)
+    if pair is None:
+        return
+    t1, t2 = pair
+    case = {"kind": "own-dump", "value": vi, "type": name, "position": pos, "bidirectional": bid}
+    try:
+        d = Delta(DeepDiff(t1, t2), bidirectional=bid)
+        data = d.dumps()
+    except Exception as e:  # noqa: what cannot be diffed / pickled at all is not a dump Delta produces
+        ctx.count("own-dump:unbuildable:" + type(e).__name__)
+        return
+    ctx.seen(("own", vi, pos, bid), nontrivial=True)
+    ctx.count("own-dump:cases")
+    case["bytes_hex"] = data.hex()
+    try:
+        d2 = Delta(data, bidirectional=bid)
+    except BaseException as e:  # noqa
+        ctx.fail(dict(case, error=type(e).__name__, message=str(e)[:120]),
+                 "the dump Delta produced for a delta holding %s (%s) does not load: %s: %s" % (name, pos, type(e).__name__, str(e)[:100]))
+        return
+    try:
+        same = d2.diff == d.diff
+    except Exception:
+        same = repr(d2.diff) == repr(d.diff)
+    if not same:
+        ctx.fail(dict(case, loaded=repr(d2.diff)[:300], original=repr(d.diff)[:300]),
+                 "the reloaded payload of a delta holding %s (%s) differs" % (name, pos))
+        return
+
+    def res(dl):
+        import copy
+        try:
+            return ("ok", repr(copy.deepcopy(t1) + dl))
+        except Exception as e:  # noqa
+            return ("raised", type(e).__name__)
+    w_, g_ = res(Delta(DeepDiff(t1, t2), bidirectional=bid)), res(Delta(data, bidirectional=bid))
+    if w_ != g_:
+        ctx.fail(dict(case, original=w_, reloaded=g_), "the reloaded delta holding %s (%s) gives a different result" % (name, pos))
+
+
+def own_dumps_part(ctx):
+    vals = own_dump_values()
+    for vi in range(len(vals)):
+        for pos in OWN_POSITIONS:
+            for bid in (False, True):
+                own_dump_one(ctx, vi, pos, bid)
+    ctx.note("own_dumps", "%d values (one per allow-listed type that can occur in a delta, and the allow-listed class / function "
+             "objects themselves) x %d positions x bidirectional: dumps() must load with the default allow-list, carry the "
+             "same payload and give the same result" % (len(vals), len(OWN_POSITIONS)))
+
+
+# ---------------------------------------------------------------------------
 # known findings
 # ---------------------------------------------------------------------------
 
@@ -1439,6 +1567,7 @@ def run(ctx):
                         {"kind": "default-world"})], label="default world tables")
         decision_part(ctx, cfgs if ctx.thorough else cfgs[:4], max_modules=None if ctx.thorough else 400)
         fixed_programs(ctx, cfgs)
+        own_dumps_part(ctx)
         programs_part(ctx, cfgs, 12000 if ctx.thorough else 2400)
     finally:
         remove_sentinels()
@@ -1449,7 +1578,11 @@ def replay(ctx, data):
     try:
         case = data.get("case", {})
         cfgs = configs()
-        if case.get("kind") == "decision":
+        if case.get("kind") == "own-dump":
+            print("replay: own dump of a delta holding %s at position %s, bidirectional=%s" % (
+                case.get("type"), case.get("position"), case.get("bidirectional")))
+            own_dump_one(ctx, case["value"], case["position"], case.get("bidirectional", False))
+        elif case.get("kind") == "decision":
             from deepdiff.serialization import _RestrictedUnpickler, ForbiddenModule
             cfg = [c for c in cfgs if c[0] == case["config"]][0]
             u = _RestrictedUnpickler(io.BytesIO(b"N."), safe_to_import=cfg[1])
